@@ -82,6 +82,15 @@ HARNESSES = [
     H('c_into_iter', 'C03 C04 C08 C11 C12'),
 ]
 HARNESSES += [
+    # iterator protocol, ranges, documented panics
+    H('c_iter_script', 'C04 C07 C08 C11'),
+    H('c_iter_mut_script', 'C04 C07 C08 C11'),
+    H('c_range_must_panic', 'C11', untagged='', expect_panic=True),
+    H('c_index_must_panic', 'C11', untagged='', expect_panic=True),
+    # drain
+    H('c_drain', 'C01 C03 C04 C09 C10 C11 C20', unwind=lambda n: n + 4),
+    H('c_drain_leak', 'C10 C11', unwind=lambda n: n + 4),
+    W('c_drain', 'C05', ns_q=[1, 2], ns_t=[1, 2, 3]),
     # destructor precondition (C05) / user-code precondition (C06) variants
     W('c_truncate_back', 'C05'), W('c_truncate_front', 'C05'), W('c_clear', 'C05'), W('c_drop_buffer', 'C05'),
     W('c_fill_spare', 'C06'), W('c_fill', 'C05 C06'), W('c_fill_with', 'C05 C06'),
@@ -90,8 +99,92 @@ HARNESSES += [
     W('c_clone', 'C06'), W('c_clone_from', 'C05 C06', ns_q=[1, 2], ns_t=[1, 2, 3]),
     W('c_to_vec', 'C06', cfg='feature = "alloc"', ns_q=[2], ns_t=[1, 2, 3]),
 ]
+# equality / ordering / hashing over (N, M) pairs of u8 buffers
+for _n, _m, _tier in [(0, 0, 'q'), (1, 2, 'q'), (2, 2, 'q'), (3, 2, 'q'), (2, 3, 'q'), (3, 3, 't'), (0, 2, 't'), (2, 0, 't'), (1, 1, 't'), (3, 1, 't'), (1, 3, 't'), (4, 3, 't'), (3, 4, 't')]:
+    HARNESSES.append(H('c_eq', 'C04 C13', name='c_eq_m%d' % _m, call='c_eq::<{N}, %d>()' % _m, untagged='C13',
+                       ns_q=[_n] if _tier == 'q' else [], ns_t=[_n], unwind=lambda n, m=_m: max(n, m) + 3))
+HARNESSES += [
+    H('c_eq_slice', 'C04 C13', call=lambda n: 'c_eq_slice::<%d, %d>()' % (n, n + 1), untagged='C13', ns_q=[0, 2], ns_t=[0, 1, 2, 3], unwind=lambda n: n + 4),
+    H('c_hash_ord', 'C04 C13', untagged='C13', ns_q=[0, 2], ns_t=[0, 1, 2, 3], unwind=lambda n: n + 4),
+    # std::io
+    H('c_io_write', 'C14 C04', cfg='feature = "std"', call=lambda n: 'c_io_write::<%d, %d>()' % (n, n + 2), ns_q=[0, 1, 3], ns_t=[0, 1, 2, 3, 4], unwind=lambda n: n + 5),
+    H('c_io_read', 'C14 C04', cfg='feature = "std"', call=lambda n: 'c_io_read::<%d, %d>()' % (n, n + 1), ns_q=[0, 1, 3], ns_t=[0, 1, 2, 3, 4], unwind=lambda n: n + 4),
+    H('c_io_bufread', 'C14 C04', cfg='feature = "std"', ns_q=[0, 1, 3], ns_t=[0, 1, 2, 3, 4], unwind=lambda n: n + 4),
+    # embedded-io(-async) vs std::io
+    H('c_eio_vs_std', 'C16', cfg='all(feature = "std", feature = "embedded-io")', features='--features embedded-io,embedded-io-async',
+      call=lambda n: 'c_eio_vs_std::<%d, %d>()' % (n, n + 2), ns_q=[0, 1, 2], ns_t=[0, 1, 2, 3], unwind=lambda n: n + 5),
+    H('c_eio_async_vs_std', 'C16', cfg='all(feature = "std", feature = "embedded-io-async")', features='--features embedded-io,embedded-io-async',
+      call=lambda n: 'c_eio_async_vs_std::<%d, %d>()' % (n, n + 2), ns_q=[0, 1, 2], ns_t=[0, 1, 2, 3], unwind=lambda n: n + 5),
+    H('c_eio_vs_std', 'C16', name='c_eio_only', cfg='all(feature = "std", feature = "embedded-io")', features='--features embedded-io',
+      call=lambda n: 'c_eio_vs_std::<%d, %d>()' % (n, n + 2), ns_q=[2], ns_t=[0, 2], unwind=lambda n: n + 5),
+    H('c_eio_async_vs_std', 'C16', name='c_eio_async_only', cfg='all(feature = "std", feature = "embedded-io-async")', features='--features embedded-io-async',
+      call=lambda n: 'c_eio_async_vs_std::<%d, %d>()' % (n, n + 2), ns_q=[2], ns_t=[0, 2], unwind=lambda n: n + 5),
+    # zero-sized elements
+    H('c_zst', 'C19 C11', ns_q=[0, 1, 3], ns_t=[0, 1, 2, 3, 4, 5], unwind=lambda n: n + 4),
+]
 # From<[T; M]>: (N, M) grid
 for _n, _m, _tier in [(0, 0, 'q'), (0, 2, 'q'), (2, 0, 'q'), (2, 2, 'q'), (2, 3, 'q'), (3, 1, 'q'), (1, 3, 't'), (3, 3, 't'), (3, 5, 't'), (2, 5, 't'), (4, 2, 't'), (1, 1, 't')]:
     HARNESSES.append(H('c_from_array', 'C03 C11 C12', name='c_from_array_m%d' % _m, call='c_from_array::<{N}, %d>()' % _m,
                        ns_q=[_n] if _tier == 'q' else [], ns_t=[_n], unwind=lambda n, m=_m: n + m + 4))
 
+
+
+# ---------------------------------------------------------------------------------------------
+# derived variants
+
+def _variant(base, suffix, props, **over):
+    e = dict(base)
+    e['name'] = base.get('name', base['fn']) + suffix
+    e['props'] = props.split()
+    e['untagged'] = over.pop('untagged', '').split() if isinstance(over.get('untagged', ''), str) else over.pop('untagged')
+    e['ns'] = {'quick': over.pop('ns_q'), 'thorough': over.pop('ns_t')}
+    e.update(over)
+    return e
+
+
+def _find(name):
+    for e in HARNESSES:
+        if e.get('name', e['fn']) == name:
+            return e
+    raise KeyError(name)
+
+
+ALLOC_STUBS = [('std::alloc::alloc', 'no_alloc'), ('std::alloc::alloc_zeroed', 'no_alloc'), ('std::alloc::realloc', 'no_realloc')]
+
+# C17: no operation allocates - the op contracts re-run with the allocator entry points stubbed to panic
+_C17_OPS = ['c_push_back', 'c_push_front', 'c_try_push_back', 'c_pop_back', 'c_pop_front', 'c_remove', 'c_swap', 'c_swap_remove_back',
+            'c_truncate_back', 'c_truncate_front', 'c_clear', 'c_make_contiguous', 'c_get', 'c_get_mut', 'c_as_slices', 'c_iter_views',
+            'c_fill', 'c_fill_with', 'c_fill_spare', 'c_extend', 'c_from_iter', 'c_extend_from_slice', 'c_clone', 'c_clone_from', 'c_into_iter',
+            'c_iter_script', 'c_iter_mut_script', 'c_drain', 'c_drain_leak', 'c_eq_m2', 'c_hash_ord', 'c_io_write', 'c_io_read', 'c_io_bufread', 'c_new']
+_extra = []
+for _nm in _C17_OPS:
+    _b = _find(_nm)
+    _n = 2 if 2 in (_b['ns']['thorough'] or []) else (_b['ns']['thorough'] or [1])[-1]
+    _stubs = list(_b.get('stubs', [])) + ALLOC_STUBS
+    _extra.append(_variant(_b, '_na', 'C17', ns_q=[_n], ns_t=[_n] if _n == 3 else sorted(set([_n, 3]) & set(_b['ns']['thorough'])) or [_n], stubs=_stubs))
+# positive control: boxed() MUST trip the stub, otherwise the stub is not effective
+_extra.append(_variant(_find('c_boxed'), '_na', 'C17', ns_q=[3], ns_t=[3], stubs=ALLOC_STUBS, expect_tag='C17', control=True))
+# C17 build half under Kani too: a few contracts with std / alloc disabled
+for _nm in ['c_push_back', 'c_remove', 'c_drain', 'c_extend_from_slice']:
+    _b = _find(_nm)
+    _extra.append(_variant(_b, '_nostd', 'C17', ns_q=[2], ns_t=[2], features='--no-default-features', untagged='C17'))
+    _extra.append(_variant(_b, '_alloconly', 'C17', ns_q=[], ns_t=[2], features='--no-default-features --features alloc', untagged='C17'))
+
+# C18: the same contracts under `--features unstable` (Kani's nightly)
+_C18_QUICK = ['c_new', 'c_from_array_m3', 'c_extend_from_slice', 'c_as_slices', 'c_make_contiguous', 'c_iter_script', 'c_iter_mut_script', 'c_drain', 'c_push_back', 'c_truncate_front']
+_C18_ALL = [e.get('name', e['fn']) for e in HARNESSES if not e.get('features') and not e.get('cfg', '').count('embedded')]
+for _nm in _C18_ALL:
+    _b = _find(_nm)
+    _t = _b['ns']['thorough'] or []
+    if not _t:
+        continue
+    _q = []
+    if _nm in _C18_QUICK:
+        _q = [2] if 2 in _t else [_t[-1]]
+    _tn = sorted(set(_t) & {0, 3}) or [_t[-1]]
+    _props = 'C18'
+    _e = _variant(_b, '_u', _props, ns_q=_q, ns_t=_tn, features='--features unstable', untagged='C18')
+    if _b.get('name', '').endswith('_w'):
+        _e['untagged'] = []
+    _extra.append(_e)
+HARNESSES += _extra
